@@ -143,3 +143,28 @@ def source_changed_guards(fi):
                 out.add(q.anorm(fi, e))
                 out.add(norm(e))
     return out
+
+
+def new_cells_validates_name(ctx):
+    """True when SpaceManager.new_cells can reach its `UserCellsImpl(name=name, ...)` construction only with a
+    name that passed is_valid_name or was drawn from the auto-namer: then CellsImpl.__init__'s own fallback
+    naming is unreachable with an invalid name (all other constructions pass a base or a base's name)."""
+    nc = ctx.func("SpaceManager.new_cells")
+    mk = [c for c in q.calls(nc, name="UserCellsImpl") if kw(c, "base") is None and norm(kw(c, "name") or ast.Constant(0)) == "name"]
+    if not mk:
+        return False
+    namer = [n_ for n_ in walk_local(nc.node) if isinstance(n_, ast.Assign) and norm(n_.targets[0]) == "name"
+             and isinstance(n_.value, ast.Call) and call_name(n_.value) == "get_next"]
+    cfg = nc.cfg
+    reach = cfg.reach([cfg.entry], avoid=set(q.nodes_for(nc, namer)),
+                      avoid_edges={(n_.id, "T") for n_ in cfg.nodes if n_.kind == "test" and norm(n_.ast) == "is_valid_name(name)"})
+    if any(i in reach for i in q.nodes_for(nc, mk[0])):
+        return False
+    # no other construction hands over a free name
+    for f in ctx.repo.all_funcs(modules=["modelx.core"]):
+        for c in q.calls(f, name=("UserCellsImpl", "CellsImpl", "DynamicCellsImpl")):
+            if f is nc and c in mk:
+                continue
+            if kw(c, "base") is None and norm(kw(c, "is_derived") or ast.Constant(0)) != "True":
+                return False
+    return True
